@@ -241,11 +241,14 @@ class PoolRun(object):
 
         cellref = {}
 
-        def body():
+        def body(*a, **k):
             ctl.yield_point("task.begin")
             tid = cellref["cell"]["tid"]
             run.tasks[tid]["begins"] += 1
             ctl.record(("begin", tid))
+            want = cellref["cell"].get("args", ((), {}))
+            if (tuple(a), dict(k)) != (tuple(want[0]), dict(want[1])) or any(x is not y for x, y in zip(a, want[0])):
+                ctl.record(("task-args", tid, repr((a, k))[:200], repr(want)[:200]))
             if kind[0] in ("wait", "waitopen"):
                 run.gates[kind[1]].wait()
             if kind[0] == "open":
@@ -286,8 +289,15 @@ class PoolRun(object):
                 elif op[0] == "enq":
                     body = self._make_task(op[1])
                     enq_call = ctl.step_index
+                    # every other task is enqueued with arguments, among them keyword names a pool could be tempted to
+                    # interpret (callback, extra, timeout): the task must receive exactly what was given
+                    self._n_enq = getattr(self, "_n_enq", 0) + 1
+                    if self._n_enq % 2 == 0:
+                        marker = object()
+                        body.cell["args"] = ((marker, self._n_enq), {"callback": marker, "extra": ("x", self._n_enq), "timeout": 0, "k": None})
+                    a, k = body.cell.get("args", ((), {}))
                     try:
-                        fut = pool.enqueue(body)
+                        fut = pool.enqueue(body, *a, **k)
                     except self.mod.queue.Full:
                         ctl.record(("enq-full", ci))
                         continue
@@ -313,6 +323,10 @@ class PoolRun(object):
                             ctl.record(("result", ci, tid, "raise", ex is mine[op[1]].outcome["exc"]))
                 elif op[0] == "open":
                     self.gates[op[1]].set()
+                elif op[0] == "idle":
+                    # the client does nothing for a while (a timed wait on an event nobody sets): at such a quiescent moment the
+                    # idle time-outs of the workers expire
+                    ctl.name(ctl.threading.Event(), "idle").wait(5.0)
         return run
 
     def run(self):
